@@ -200,6 +200,24 @@ Section Pool.
       | None => SPanic
       | Some (p, _) => match merge_into0 p with Some a => SOk a | None => SPanic end
       end.
+
+  (* call sites that discard the result of AddRangeJob/AddJob and only test Wait
+     (matrixEstimator/shapeHmm_data.go:115; scalarEstimator/numeric.go:117,143 discards both):
+     on the nil pool (k = 1) the error of a job is returned by AddJob and lost; the jobs queued
+     after it still run (the loop over records continues), Wait returns nil *)
+  Fixpoint seq_run_ignoring (js : list jres) (t : thr) : thr :=
+    match js with
+    | [] => t
+    | JErr :: r => seq_run_ignoring r t
+    | JOk c :: r => seq_run_ignoring r (job_lazy c t)
+    end.
+  Definition step_addjob_result_ignored (polls : bool) (k : nat) (stale : pool) (tr : list jevent) : sres :=
+    if Nat.eqb k 1 then
+      match clear_flags stale with
+      | [] => SPanic
+      | t0 :: _ => match merge_into0 [seq_run_ignoring (map snd tr) t0] with Some a => SOk a | None => SPanic end
+      end
+    else step_with_errors polls k stale tr.
 End Pool.
 
 Arguments mkThr {A}. Arguments init {A}. Arguments acc {A}.
